@@ -432,14 +432,20 @@ def run_history(case, rec, mode):
 def history(draw, tier, mode):
     fam = draw(ham_desc(Lmin=1, Lmax=4 if tier == 'quick' else 5, dense_cap=256))
     L = fam['L']; qd = ham_qd(fam)
-    md = mps_desc(Lmin=L, Lmax=L, qd=qd, q0=0, Dmax=3, styles=['complex', 'complex', 'real'], disjoint_prob=0, junk=False, dense_cap=10**9)
-    od = mpo_desc(Lmin=L, Lmax=L, qd=qd, Dmax=2, styles=['complex', 'real'], disjoint_prob=0, junk=False, dense_cap=10**9, zero_shift=True)
+    # all states of a history share the leading bond charge (needed for sums); it is non-zero in a third of the histories
+    q0 = draw(st.sampled_from([0, 0, 1, -2, 0, 3]))
+    md = mps_desc(Lmin=L, Lmax=L, qd=qd, q0=q0, Dmax=3, styles=['complex', 'complex', 'real'], disjoint_prob=0, junk=False, dense_cap=10**9)
+    od0 = mpo_desc(Lmin=L, Lmax=L, qd=qd, Dmax=2, styles=['complex', 'real'], disjoint_prob=0, junk=False, dense_cap=10**9, zero_shift=True)
+    # operators: zero total shift, bond charges optionally shifted uniformly (non-zero leading = trailing charge)
+    mshift = draw(st.sampled_from([0, 0, 2, -1]))
+    od = od0.map(lambda d_: dict(d_, qD=[[q + mshift for q in qs] for qs in d_['qD']]))
     init_mps = [draw(md) for _ in range(draw(st.sampled_from([2, 1, 3])))]
     init_mpo = [draw(od) for _ in range(draw(st.sampled_from([1, 0, 2])))]
     sel = st.integers(0, 7)
     mut = st.integers(0, 5)
     steps = [
         st.tuples(st.just('new_mps'), md),
+        st.tuples(st.just('new_mpo'), od),
         st.tuples(st.just('ham')),
         st.tuples(st.just('identity'), sel),
         st.tuples(st.just('from_vector'), st.integers(0, 10**6), sel),
